@@ -50,6 +50,10 @@ CLAIMS = {
    text="Proof (Lean 4, all sorted key lists and tombstone patterns): the forward positioning loop of the transaction range cursor lands on exactly the least live key >= the frontier of the write-set-over-snapshot overlay, in a state satisfying the forward invariant (C09_position_to_min), hence seek_first and seek(target) are exact (C09_seek_first, C09_seek). next / prev / seek_last and the direction-change prologue are validated, not proved: every generated cursor program (direction reversals at every position, bounds present/absent/empty/inverted, keys spread over write set, memtables and tables on several levels) is compared call by call with the executable model and with the list-cursor specification on the real stack. Four genuine defects found by this check were repaired.",
    note="Trusted: Lean kernel + standard axioms; transcription of TransactionRangeIterator; the snapshot-side stack (SnapshotIterator, KMergeIterator, table and memtable cursors) is assumed to be a list cursor in the model and only exercised by the correspondence: partial.",
    technique="Lean 4 refinement proof of the merge positioning loop + call-by-call differential correspondence of cursor programs", ref="DESIGN.md §6 C09"),
+ "C19": dict(
+   text="Invariant proof (Lean 4) over the interleaved micro-steps (begin, tryLock, touch, finishOpen, beginClose, release, crash) of any number of openers in any order: at most one opener is ever live — recovering, open or still closing (C19_at_most_one_live); every mutation of the directory in any run was made by the lock owner of that moment (C19_touch_only_by_owner); an attempt made while another opener is live fails and changes neither data, LOCK content nor ownership (C19_refused_open_pure), and an open is refused only by a live store (C19_refused_only_by_live); after the owner's close or death the next attempt succeeds (C19_reopen_after_close / _crash). Tied to the code by pausing the real build()/close() at yield points while other threads and child processes try to open, with byte identity of the directory checked after every refused attempt and the acquire/touch/release trace of every call compared with the model. One genuine defect (refused open truncated LOCK) was repaired.",
+   note="Trusted: Lean kernel + standard axioms; flock(2) semantics; the hand-written step order of open/close (checked by trace comparison on every run, not derived); same Options for all openers; races finer than the yield points inside LockFile::acquire (open-then-lock) are covered by the OS lock, not by the model.",
+   technique="Lean 4 invariant proof over an interleaving transition system + pause-point differential correspondence across threads and processes", ref="DESIGN.md §6 C19"),
 }
 props = [json.loads(l) for l in open('/verif/properties.jsonl')]
 hooks = subprocess.run(["git", "-C", "/repo", "log", "--format=%h %s"], capture_output=True, text=True).stdout.splitlines()
